@@ -25,6 +25,7 @@ from dashlive.utils.timezone import UTC
 from .base import HTMLHandlerBase, RequestHandlerBase, TemplateContext
 from .csrf import CsrfTokenCollection
 from .decorators import (
+    jwt_login_required,
     csrf_token_required,
     current_mps,
     login_required,
@@ -310,6 +311,7 @@ class EditStream(HTMLHandlerBase):
         }
         return jsonify(result)
 
+    @jwt_login_required(permission=models.Group.MEDIA)
     @csrf_token_required('streams')
     def post(self, mps_name: str) -> flask.Response:
         data = flask.request.json
@@ -326,6 +328,7 @@ class EditStream(HTMLHandlerBase):
             })
         return self.process_json_body(mps_name, csrf_token)
 
+    @jwt_login_required(permission=models.Group.MEDIA)
     @csrf_token_required('streams')
     def delete(self, mps_name: str) -> flask.Response:
         logging.info('Deleting MultiPeriodStream: %s', mps_name)
